@@ -2,7 +2,7 @@
 From Coq Require Import NArith List.
 From DV Require Import Base.Outcome Base.Bytes Base.Names Base.PName C02.Gen C02.Model
   C02.ProofsBasic C02.ProofsRun C02.ProofsName C02.ProofsComp C02.ProofsStatic C02.ProofsHash C02.ProofsTop
-  C02.ProofsLayout C02.ProofsRead C02.ProofsWrite C02.ProofsBuild.
+  C02.ProofsLayout C02.ProofsRead C02.ProofsWrite C02.ProofsBuild C02.ProofsTotal.
 Import ListNotations.
 Local Open Scope N_scope.
 
@@ -21,6 +21,17 @@ Theorem C02_build_parse : forall c ops s0 s a ws,
   exists a', rd_message (msg_of s) a = Ok a' /\ acc_eqb a' a = true.
 Proof. exact build_parse. Qed.
 Print Assumptions C02_build_parse.
+
+(* No reachable builder panics or loops, and the message reads back as the
+   accepted pushes: the statement above without the "no panic" premise, for
+   record data of at most 65535 octets (which the typed record data of the
+   library guarantee; compose_prefixed's expect("long data") is otherwise
+   reachable, see long_data_panics in ProofsTotal.v). *)
+Theorem C02_build_parse_total : forall c ops s0 s a ws,
+  init c = Some s0 -> Forall wf_op_sized ops -> run_acc c s0 acc0 ops = (s, a, ws) ->
+  all_alive ws /\ exists a', rd_message (msg_of s) a = Ok a' /\ acc_eqb a' a = true.
+Proof. exact build_parse_total. Qed.
+Print Assumptions C02_build_parse_total.
 
 (* A failed push (target full, push limit, count overflow) leaves the whole
    builder state - octets, counts, stream length octets, compressor tables,
@@ -78,3 +89,14 @@ Theorem C02_compression_exact_none_tree : forall c n w w',
   decode_name (w_buf w') (mlen (w_buf w)) (mlen (w_buf w')) = Ok (n, mlen (w_buf w')).
 Proof. exact compression_exact. Qed.
 Print Assumptions C02_compression_exact_none_tree.
+
+(* HashTable::find may visit entries in any order: with at most one matching
+   entry per query the model's list search gives the same answer for every
+   arrangement of the same entry set. *)
+Theorem C02_hash_find_order_irrelevant : forall m ml l pos es es',
+  (forall e, In e es <-> In e es') ->
+  Forall (fun e => label_at m ml (fst e) <> None) es ->
+  (forall e1 e2, In e1 es -> In e2 es -> hmatch m ml l pos e1 -> hmatch m ml l pos e2 -> fst e1 = fst e2) ->
+  hash_find m ml es' l pos = hash_find m ml es l pos.
+Proof. exact hash_find_order_irrelevant. Qed.
+Print Assumptions C02_hash_find_order_irrelevant.
